@@ -42,6 +42,9 @@ def parseOp (w : List String) : Option Op :=
   | ["lWithProps", cl] => do let cl ← parseClosure cl; pure (.lWithProps cl)
   | ["lAddProps", cl] => do let cl ← parseClosure cl; pure (.lAddProps cl)
   | ["lAddEvent", n, p] => do let n ← strOfHex n; let p ← parseOptProps p; pure (.lAddEvent n p)
+  -- an `Event` value built earlier (`evNew`, a no-op for the model): attaching it is attaching an event
+  | ["lAddEventPre", _, n, p] => do let n ← strOfHex n; let p ← parseOptProps p; pure (.lAddEvent n p)
+  | ["addEventPre", v, _, n, p] => do let n ← strOfHex n; let p ← parseOptProps p; pure (.addEvent v n p)
   | ["ctxOf", v] => some (.ctxOf v)
   | ["ctxLocal"] => some .ctxLocal
   | ["toRecords", x, t, sp] => do let t ← parseHexNat t; let sp ← parseHexNat sp; pure (.toRecords x t sp)
@@ -112,6 +115,7 @@ def seqStep (st : SeqState) (line : String) : SeqState × String :=
   | ["case", _] => (⟨Sys.init, 0⟩, "case")
   | [_, "sleep", _] => (st, "ok")      -- the harness lets real time pass; nothing else happens
   | [_, "flushBegin"] => (st, "ok")    -- `flush()` called on a helper thread; it runs its cycle once no other is in progress
+  | [_, "evNew", _, _, _] => (st, "ok") -- `Event::new(..)`: a value, no tracing call
   | t :: rest =>
     match t.toNat?, parseOp rest with
     | some t, some op =>
@@ -127,6 +131,7 @@ def offStep (line : String) : String :=
   | ["case", _] => "case"
   | [_, "sleep", _] => "ok"
   | [_, "flushBegin"] => "ok"
+  | [_, "evNew", _, _, _] => "ok"
   | _ :: rest =>
     match parseOp rest with
     | some op => showObs 0 (execOff op)
